@@ -88,6 +88,9 @@ def snapshot(obj: Any = undefined) -> Any:
 
     if key not in state().snapshots:
         node = expr.node if source is not None else None
+        if node is not None and _inside_fstring(node):
+            # asttokens knows no positions for expressions inside of f-strings
+            node = None
         if node is None:
             # we can run without knowing of the calling expression but we will not be able to fix code
             state().snapshots[key] = SnapshotReference(obj, None, context)
@@ -98,6 +101,15 @@ def snapshot(obj: Any = undefined) -> Any:
         state().snapshots[key]._re_eval(obj, context)
 
     return state().snapshots[key]._value
+
+
+def _inside_fstring(node):
+    parent = getattr(node, "parent", None)
+    while parent is not None:
+        if isinstance(parent, ast.JoinedStr):
+            return True
+        parent = getattr(parent, "parent", None)
+    return False
 
 
 def used_externals(tree):
